@@ -117,6 +117,59 @@ theorem C04.display_is_commodity_precision (ci : CommInfo) (q : Rat) (amtPrec : 
   rw [hd]
   exact ⟨fmtNum_frac_length_exact q ci.prec, fmtNum_val _ _ _⟩
 
+/-! ### what the default register / balance listing shows (value_t::print, amount_t::is_zero) -/
+
+/-- For a rounded commoditized amount carrying more decimals than its commodity displays,
+    amount_t::is_zero holds exactly when the amount rounds to zero at the display precision: an
+    amount below one that rounds UP to one (0.996 at two decimals) is not zero. -/
+theorem C04.is_zero_iff (cp : Nat) (q : Rat) (ap : Nat) (hlt : cp < ap) :
+    isZeroAmt true cp q ap false = true ↔ Amount.roundTo q cp = 0 := by
+  constructor
+  · intro h
+    have := isZeroAmt_sound true cp q ap false h
+    have hd : displayPrec true cp ap false = cp := by simp [displayPrec]
+    rwa [hd] at this
+  · exact isZeroAmt_complete cp q ap hlt
+
+/-- Otherwise (no commodity, precision kept, or no more decimals than displayed) it is exact. -/
+theorem C04.is_zero_exact (hasComm : Bool) (cp : Nat) (q : Rat) (ap : Nat) (keep : Bool)
+    (h : hasComm = false ∨ keep = true ∨ ap ≤ cp) :
+    isZeroAmt hasComm cp q ap keep = decide (q = 0) := by
+  unfold isZeroAmt
+  rcases h with h | h | h
+  · simp [h]
+  · cases hasComm <;> simp [h]
+  · cases hasComm <;> simp [h]
+
+/-- value_t::print of an amount is amount_t::print of it (quotes elided), or a bare `0` — and the
+    latter only when the amount rounds to zero at its display precision: the listing is never a
+    whole unit off. -/
+theorem C04.show_value (dcDefault : Bool) (sym : Text) (ci : CommInfo) (q : Rat) (amtPrec : Nat) (keep : Bool) :
+    showAmount dcDefault sym ci q amtPrec keep = printAmountElided dcDefault sym ci q amtPrec keep ∨
+    (showAmount dcDefault sym ci q amtPrec keep = ['0'] ∧
+      Amount.roundTo q (displayPrec (decide (sym ≠ [])) ci.prec amtPrec keep) = 0) := by
+  unfold showAmount
+  by_cases h : isZeroAmt (decide (sym ≠ [])) ci.prec q amtPrec keep = true
+  · right
+    rw [if_pos h]
+    exact ⟨rfl, isZeroAmt_sound _ _ _ _ _ h⟩
+  · left
+    rw [if_neg h]
+
+/-- The listing spells the amount exactly as amount_t::print does unless the commodity is
+    separated and its printed symbol starts with a quote (then only the symbol's quotes differ). -/
+theorem C04.elided_eq_print (dcDefault : Bool) (sym : Text) (ci : CommInfo) (q : Rat) (amtPrec : Nat)
+    (keep : Bool) (h : startsQuote (qualified sym) = false ∨ ci.style.separated = false ∨ sym = []) :
+    printAmountElided dcDefault sym ci q amtPrec keep = printAmount dcDefault sym ci q amtPrec keep := by
+  have he : elidedSymbol (if sym ≠ [] then ci.style else ({} : Style)).separated sym = qualified sym := by
+    unfold elidedSymbol
+    rcases h with h | h | h
+    · simp [h]
+    · by_cases hs : sym ≠ [] <;> simp [hs, h]
+    · simp [h]
+  unfold printAmountElided printAmount
+  simp only [he]
+
 /-! ### thousands marks -/
 
 /-- Removing the marks recovers the digits, and read from the right the marks sit after every
@@ -368,6 +421,11 @@ example : printAmount false "A B".toList
 example : parseAmount (fun _ => true) "1.234.567,891 \"A B\"".toList =
     .ok { q := 1234567891 / 1000, prec := 3, sym := "A B".toList,
           flags := { suffixed := true, separated := true, thousands := true, decimalComma := true }, rest := [] } := by
+  decide +kernel
+
+example : showAmount false "$".toList { style := { thousands := true }, prec := 2 } (996 / 1000) 3 false = "$1.00".toList ∧
+    showAmount false "$".toList { style := { thousands := true }, prec := 2 } (-9951 / 10000) 4 false = "$-1.00".toList ∧
+    showAmount false "$".toList { style := { thousands := true }, prec := 2 } (4 / 1000) 3 false = "0".toList := by
   decide +kernel
 
 example : TailOK " ; note".toList := by decide
